@@ -147,7 +147,7 @@ def _shard_job(args):
         for e in gen(shard, nshards):
             case = e.pop('case', None)
             f.write(json.dumps(e, separators=(',', ':')) + '\n')
-            index[e['tid']] = case
+            index[e['tid']] = dict(case, out=e['out']) if isinstance(case, dict) and 'out' in e else case
             key, trivial, text = (_DESCRIBE or describe_algebra)(e, case)
             if not trivial:
                 nontrivial.add(int(hashlib.blake2b(key.encode(), digest_size=8).hexdigest(), 16))
@@ -259,6 +259,9 @@ def model_leg(check, scratch, name, constants, want, *, simulate=None, depth=Non
     d = scratch.sub('model-' + name)
     consts = dict(constants)
     consts['Want'] = set(want)
+    if module == 'SigMachine':
+        consts.setdefault('DVs', set())
+        consts.setdefault('ANs', set())
     cfg = tlc.write_cfg(os.path.join(d, module + '.cfg'), spec='Spec', constants=consts,
                         invariants=invariants, constraints=constraints)
     r = tlc.run_tlc(module, cfg, scratch, workers=workers or tlc.NCPU, simulate=simulate, depth=depth, seed=seed,
